@@ -87,6 +87,10 @@ func (r *Recomposer) registerComposer(rt reflect.Type, fun RecomposeFunc) (*comp
 		return nil, fmt.Errorf("only structs can be recomposed. %s is not a struct type", rt)
 	}
 	c := r.composers[full]
+	if rt.Name() == "" {
+		// Anonymous struct types all have the same (empty) name, they can not be told apart in the registry.
+		c = nil
+	}
 	if c == nil {
 		c = &composer{
 			fun:   fun,
@@ -95,8 +99,10 @@ func (r *Recomposer) registerComposer(rt reflect.Type, fun RecomposeFunc) (*comp
 			rtype: rt,
 		}
 		c.indexes = indexType(c.rtype)
-		r.composers[c.short] = c
-		r.composers[c.full] = c
+		if rt.Name() != "" {
+			r.composers[c.short] = c
+			r.composers[c.full] = c
+		}
 	} else {
 		if fun != nil {
 			c.fun = fun
@@ -115,12 +121,20 @@ func (r *Recomposer) registerComposer(rt reflect.Type, fun RecomposeFunc) (*comp
 		case reflect.Array, reflect.Slice, reflect.Map, reflect.Ptr:
 			ft = ft.Elem()
 		}
-		if _, has := r.composers[ft.Name()]; has {
+		if _, has := r.composers[fullName(ft)]; has {
 			continue
 		}
 		_, _ = r.registerComposer(ft, nil)
 	}
 	return c, nil
+}
+
+// fullName is the registry key that identifies a type: package path and name. Anonymous types have no key.
+func fullName(rt reflect.Type) string {
+	if rt.Name() == "" {
+		return ""
+	}
+	return rt.PkgPath() + "/" + rt.Name()
 }
 
 func (r *Recomposer) registerAnyComposer(rt reflect.Type, fun RecomposeAnyFunc) (*composer, error) {
@@ -406,7 +420,7 @@ func (r *Recomposer) recomp(v any, rv reflect.Value) {
 	case reflect.Struct:
 		vm, ok := (v).(map[string]any)
 		if !ok {
-			if c := r.composers[rv.Type().Name()]; c != nil && c.any != nil {
+			if c := r.composers[fullName(rv.Type())]; c != nil && c.any != nil {
 				if val, err := c.any(v); err == nil {
 					if val == nil {
 						break
@@ -444,7 +458,7 @@ func (r *Recomposer) recomp(v any, rv reflect.Value) {
 			return
 		}
 		var im map[string]reflect.StructField
-		if c := r.composers[rv.Type().Name()]; c != nil {
+		if c := r.composers[fullName(rv.Type())]; c != nil {
 			if c.fun != nil {
 				if val, err := c.fun(vm); err == nil {
 					vv := reflect.ValueOf(val)
